@@ -134,9 +134,10 @@ fn model_points_fb(gd: &[u8], n: usize) -> Option<(Vec<(i16, i16, bool)>, usize)
 }
 
 /// model of `read_points_fast` on zero-initialised caller buffers of the right length (repeat
-/// counts are clamped, at most `n` flag bytes are looked at, missing flags stay 0)
+/// counts are clamped, at most `2 * n` flag bytes are looked at — two per point, `fix:` d12a1b2 —
+/// and flags that end before every point has one are an error)
 fn model_fast(gd: &[u8], n: usize) -> Option<Vec<(i32, i32, u8)>> {
-    let avail = n.min(gd.len());
+    let avail = n.saturating_mul(2).min(gd.len());
     let mut flags = vec![0u8; n];
     let mut it = gd[..avail].iter().copied();
     let mut rb = 0usize;
@@ -157,6 +158,9 @@ fn model_fast(gd: &[u8], n: usize) -> Option<Vec<(i32, i32, u8)>> {
         if i == n {
             break;
         }
+    }
+    if i != n {
+        return None;
     }
     let mut p = rb;
     let mut xs = Vec::with_capacity(n);
